@@ -255,6 +255,17 @@ def run(R, tier):
     R.floor("R16.7", "reads of Context.mav (recogniser witness)", readers, 1)
 
 
+    # ---- R16.8 the common commands the macros declare (sa/rules/treedecl.py) ----------------------------------------------------------
+    from . import treedecl as TD
+    try:
+        tree, tb = TD.witness_tree()
+        R.configs.append("witness")
+        TD.check_subtree(R, "R16.8", tree, [], [(("*" + n).encode(), "Leaf", False, h, None) for n, h in (("CLS", "ClsCommand"), ("ESE", "EseCommand"), ("ESR", "EsrCommand"), ("IDN", "IdnCommand"), ("OPC", "OpcCommand"),
+                                                                                                      ("RST", "RstCommand"), ("SRE", "SreCommand"), ("STB", "StbCommand"), ("TST", "TstCommand"), ("WAI", "WaiCommand"))], where=tb.span)
+    except facts.AnchorLost as e:
+        R.anchor_lost("R16.8", str(e))
+
+
 def _code_of(variant):
     import json, os
     from ..report import VERIF
